@@ -48,6 +48,17 @@ FailedReload ==
         /\ Chk("baseline_is_old", e.before = e.old)
   /\ UNCHANGED active
 
+\* a reload that touches a restart-required setting (docs/configuration.md "Restart Required"): whatever it
+\* answers, the instance afterwards runs purely the configuration it claims to run
+FrozenReload ==
+  /\ IsEvent("FrozenReload")
+  /\ LET e == Trace[l]
+     IN /\ Chk("baseline_is_old", e.before = e.old)
+        /\ Chk("refused_means_old", e.ok \/ e.after = e.old)
+        /\ Chk("applied_means_new", ~e.ok \/ e.after = e.new)
+        /\ Chk("restart_required_refused", e.ok = FALSE)
+  /\ UNCHANGED active
+
 FileCrash ==
   /\ IsEvent("FileCrash")
   /\ LET e == Trace[l]
@@ -78,7 +89,7 @@ WriteProtocol ==
         /\ Chk("never_written_in_place", pos("write_target") = 0)
   /\ UNCHANGED active
 
-Next == Reset \/ Probe \/ Settled \/ FailedReload \/ FileCrash \/ Rollback \/ WriteProtocol
+Next == Reset \/ Probe \/ Settled \/ FailedReload \/ FrozenReload \/ FileCrash \/ Rollback \/ WriteProtocol
 Spec == Init /\ [][Next]_vars
 TraceAccepted ==
   LET d == TLCGet("stats").diameter
